@@ -171,7 +171,7 @@ ADDENDA = {
     'C11': 'Also: 300 x 300, 120 x 600 and 20 x 15 bin grids; results of earlier calls must stay unchanged. Defaults omitted, options by position, an exhaustive small family with NaN / inf frequencies over bins that contain 0.',
     'C12': 'Also: recordings beyond 2^17 samples with wraps exactly on powers of two; phases handed over in a caller-owned buffer '
            'refilled in place (two consecutive calls on one object). The deprecated alias, the positional form, an all-True mask vector, a wrap-free column placed first. At the larger scope every recording is followed by a wrap-free series of the same shape and by two-column inputs whose wrap-free column changes place (8 more calls per instance).',
-    'C13': 'Also: 5000-sample cycles with one plateau / reversal exactly on a 2^k sample index; tolerances less than 1e-6 apart used one after the other. The alias with masks; the phase as second column of a two-column array.',
+    'C13': 'Also: 5000-sample cycles with one plateau / reversal exactly on a 2^k sample index; tolerances less than 1e-6 apart used one after the other. The alias with masks; the phase as second column of a two-column array. Cycles whose first steps are one ulp / denormal / 1e-17 increases or exact repeats (512 triples).',
     'C14': 'Also: alignment of cycles with one internal phase step of 3.3-4.2 rad; label / value arrays in caller-owned buffers refilled in place; '
            'results of earlier calls unchanged. Values with trailing dimensions in bin_by_phase; pre-built iterators (either mode) in place of the container.',
     'C15': 'Alphabet now 30 operations (conditions on chain-level metrics, stored chain metrics re-added under another name); the '
